@@ -317,7 +317,7 @@ func (g *Graph) addCall(fn *ssa.Function, ci ssa.CallInstruction) {
 	} else if com.IsInvoke() {
 		name = "invoke " + com.Method.FullName()
 	}
-	pure := stringFuncs[name] || strings.HasPrefix(name, "strings.") || strings.HasPrefix(name, "strconv.") || strings.HasPrefix(name, "(time.Time).") || name == "time.Date"
+	pure := stringFuncs[name] || strings.HasPrefix(name, "strings.") || strings.HasPrefix(name, "strconv.") || strings.HasPrefix(name, "(time.Time).") || name == "time.Date" || name == "time.Parse"
 	if pure {
 		for _, a := range com.Args {
 			g.add(res, valNode(a), true, "via "+name)
